@@ -38,24 +38,23 @@ Section Pair.
   Qed.
 
   (* a text that starts with a character which is no white space, sign or digit: the degree cannot be read *)
-  Lemma poly_read_bad_head c l g : isspace c = false -> isdigit c = false -> c <> 43 -> c <> 45 ->
-    failb (snd (poly_read (elt_read init) (from_chars (c :: l)) g)) = true.
+  Lemma poly_read_bad_head c l old : isspace c = false -> isdigit c = false -> c <> 43 -> c <> 45 ->
+    failb (snd (poly_read (elt_read init) (from_chars (c :: l)) old)) = true.
   Proof.
     intros Hs Hd H43 H45. unfold poly_read, num_get, from_chars, good. cbn [eofb failb Model.rest negb andb drop_ws].
     rewrite Hs. destruct (Z.eqb_spec c 45); [contradiction|]. destruct (Z.eqb_spec c 43); [contradiction|].
-    cbn [scan_digits]. rewrite Hd. cbn [negb]. change (0 <? 0) with false. cbn iota.
-    apply coeffs_failed. reflexivity.
+    cbn [scan_digits]. rewrite Hd. cbn [negb]. reflexivity.
   Qed.
 
-  (* "1 + ...": the degree is 1 and the first coefficient is "+ " *)
   Lemma num_get_one_plus l g :
-    num_get (- 2 ^ 63) (2 ^ 63 - 1) (from_chars (49 :: 32 :: 43 :: 32 :: l)) g = (1, mkS (32 :: 43 :: 32 :: l) false false).
+    num_get LONG_MIN LONG_MAX (from_chars (49 :: 32 :: 43 :: 32 :: l)) g = (1, mkS (32 :: 43 :: 32 :: l) false false).
   Proof. reflexivity. Qed.
 
-  Lemma poly_read_one_plus l g :
-    failb (snd (poly_read (elt_read init) (from_chars (49 :: 32 :: 43 :: 32 :: l)) g)) = true.
+  (* "1 + ...": the degree is 1 and the first coefficient is "+ " *)
+  Lemma poly_read_one_plus l old :
+    failb (snd (poly_read (elt_read init) (from_chars (49 :: 32 :: 43 :: 32 :: l)) old)) = true.
   Proof.
-    unfold poly_read. rewrite num_get_one_plus. change (1 <? 0) with false. cbn iota. change (Z.to_nat 1) with 1%nat.
+    unfold poly_read. rewrite num_get_one_plus. cbn [failb]. change (1 <? 0) with false. cbn iota. change (Z.to_nat 1) with 1%nat.
     cbn [poly_read_coeffs].
     assert (Ef : failb (snd (elt_read init (mkS (32 :: 43 :: 32 :: l) false false))) = true).
     { unfold elt_read, Integer_in, gmp_read, sget, good. cbn [eofb failb Model.rest negb andb].
@@ -66,27 +65,28 @@ Section Pair.
     exact (coeffs_failed 1%nat s1 [c] Ef).
   Qed.
 
-  Lemma poly_read_single c g : isdigit c = true -> 0 <= c - 48 ->
-    failb (snd (poly_read (elt_read init) (from_chars [c]) g)) = true.
+  Lemma poly_read_single c old : isdigit c = true -> 0 <= c - 48 ->
+    failb (snd (poly_read (elt_read init) (from_chars [c]) old)) = true.
   Proof.
     intros Hd Hc. apply digit_range in Hd as Hr.
-    unfold poly_read, num_get, from_chars, good. cbn [eofb failb Model.rest negb andb drop_ws].
+    unfold poly_read, num_get, from_chars, good, LONG_MIN, LONG_MAX. cbn [eofb failb Model.rest negb andb drop_ws].
     rewrite (digit_not_space _ Hd). destruct (Z.eqb_spec c 45); [lia|]. destruct (Z.eqb_spec c 43); [lia|].
     cbn [scan_digits]. rewrite Hd. cbn [negb is_nil].
     destruct (Z.ltb_spec (10 * 0 + (c - 48)) (- 2 ^ 63)); [lia|].
     destruct (Z.ltb_spec (2 ^ 63 - 1) (10 * 0 + (c - 48))); [lia|].
+    cbn [failb].
     destruct (Z.ltb_spec (10 * 0 + (c - 48)) 0); [lia|].
     apply coeffs_not_good. reflexivity.
   Qed.
 End Pair.
 
 Definition Poly_write_read_never_stmt : Prop :=
-  forall (E : Type) (init : Z -> E) (var P : list Z) (g : Z), var_ok2 var ->
-    failb (snd (poly_read (elt_read init) (from_chars (poly_write var elt_write P)) g)) = true.
+  forall (E : Type) (init : Z -> E) (var P : list Z) (old : list E), var_ok2 var ->
+    failb (snd (poly_read (elt_read init) (from_chars (poly_write var elt_write P)) old)) = true.
 
 Lemma poly_write_read_never : Poly_write_read_never_stmt.
 Proof.
-  intros E init var P g Hv.
+  intros E init var P old Hv.
   change (poly_write var elt_write P) with (poly_write var print_Z P).
   destruct var as [|v0 vt] eqn:Evar; [contradiction|]. destruct Hv as (H40 & Hvd & Hvs & H43 & H45). rewrite <- Evar.
   destruct (setdegree P) as [|p0 tl] eqn:Esd.
@@ -114,7 +114,7 @@ Qed.
 
 (* the same with the reader on a destination that holds any polynomial *)
 Definition Poly_write_read_never_any_dest_stmt : Prop :=
-  forall (E : Type) (dflt zero one : E) (init : Z -> E) (var P : list Z) (g : Z) (old : list E), var_ok2 var ->
-    failb (snd (poly_read_into dflt zero one (elt_read init) (from_chars (poly_write var elt_write P)) g old)) = true.
+  forall (E : Type) (dflt zero one : E) (init : Z -> E) (var P : list Z) (old : list E), var_ok2 var ->
+    failb (snd (poly_read_into dflt zero one (elt_read init) (from_chars (poly_write var elt_write P)) old)) = true.
 Lemma poly_write_read_never_any_dest : Poly_write_read_never_any_dest_stmt.
-Proof. unfold Poly_write_read_never_any_dest_stmt. intros. rewrite poly_read_dest_independent. apply poly_write_read_never; auto. Qed.
+Proof. unfold Poly_write_read_never_any_dest_stmt. intros. rewrite poly_read_into_eq. apply poly_write_read_never; auto. Qed.
